@@ -3,7 +3,7 @@
   `[s:e]` of the sequence of `l` (non-self-overlapping layouts) — hence the split law and the consistency of
   sliced sequence objects.
 -/
-import BioCantor.Proofs.SeqReverse
+import BioCantor.Proofs.SeqSorted
 set_option linter.unusedSimpArgs false
 namespace BioCantor.Proofs.Sq
 open BioCantor BioCantor.Spec BioCantor.Model BioCantor.Spec.Sq BioCantor.Model.Sq BioCantor.Proofs
@@ -73,7 +73,8 @@ theorem relint_inv (l : Location) (loc : Loc) (hl : toLoc l = some loc) (rs re :
     (hd : loc.strand.isDirectional = true) (h0 : 0 ≤ rs) (h1 : rs ≤ re) (h2 : re ≤ loc.len) (hlen : 0 < loc.len)
     (hno : nonOverlap loc.blocks = true) :
     ∃ m, ans = some m ∧ locationStrand? m = some loc.strand ∧ wfLocation m = true ∧
-      locationBases m = ((bases loc).drop rs.toNat).take (re - rs).toNat := by
+      locationBases m = ((bases loc).drop rs.toNat).take (re - rs).toNat ∧
+      (rs < re → normalBlocks (locationBlocks m) = true) := by
   have hdom : relintDomain l rs re = true := by
     simp [relintDomain, hl, hd, h0, h1, h2]
   unfold okRelint at hok
@@ -84,12 +85,15 @@ theorem relint_inv (l : Location) (loc : Loc) (hl : toLoc l = some loc) (rs re :
   | none => simp at hok
   | some m =>
     simp only [Bool.and_eq_true, beq_iff_eq] at hok
-    obtain ⟨⟨⟨hs, hwf⟩, hb⟩, _⟩ := hok
-    refine ⟨m, rfl, hs, hwf, ?_⟩
-    cases hst : loc.strand with
-    | unstranded => rw [hst] at hd; simp [Strand.isDirectional] at hd
-    | plus => simp only [hst, if_true] at hb; simpa using hb
-    | minus => simp only [hst, if_true] at hb; simpa using hb
+    obtain ⟨⟨⟨hs, hwf⟩, hb⟩, hn⟩ := hok
+    refine ⟨m, rfl, hs, hwf, ?_, ?_⟩
+    · cases hst : loc.strand with
+      | unstranded => rw [hst] at hd; simp [Strand.isDirectional] at hd
+      | plus => simp only [hst, if_true] at hb; simpa using hb
+      | minus => simp only [hst, if_true] at hb; simpa using hb
+    · intro hlt
+      simp only [hlt, and_true, if_true, Bool.and_eq_true] at hn
+      exact hn.1
 
 theorem WF_of_wfLocation (m : Location) (h : wfLocation m = true) : WF m := by
   cases m with
@@ -142,17 +146,43 @@ theorem toLoc_strand (l : Location) (loc : Loc) (hl : toLoc l = some loc) : loca
   | compound c => simp only [toLoc, Option.some.injEq] at hl; subst hl; rfl
   | empty => simp [toLoc] at hl
 
+theorem mkSingle_single (s e : Int) (st : Strand) (m : Location) (h : mkSingle s e st = .ok m) :
+    ∃ b t, m = .single b t := by
+  unfold mkSingle at h
+  split at h
+  · cases h; exact ⟨_, _, rfl⟩
+  · cases h
+
+/-- an empty request (`s = e`) is answered with a SingleInterval -/
+theorem relInterval_empty_single (l : Location) (s : Int) (m : Location) (h : relInterval l s s .plus = .ok m) :
+    ∃ b t, m = .single b t := by
+  cases l with
+  | empty => cases h
+  | single b st =>
+    simp only [relInterval, singleRelInterval] at h
+    repeat' split at h
+    all_goals first | cases h | exact mkSingle_single _ _ _ m h
+  | compound c =>
+    simp only [relInterval, compoundRelInterval, lt_self_iff_false] at h
+    repeat' split at h
+    all_goals first
+      | cases h
+      | (simp only [bind, Except.bind] at h
+         repeat' split at h
+         all_goals first | cases h | exact mkSingle_single _ _ _ m h)
+
 /-- **sub-interval lemma**: on a directional, non-self-overlapping, non-empty location inside the parent, an
-    in-range `relative_interval_to_parent_location(s, e, +)` answers a location on the same strand whose
-    sequence is the reading of the positions `(bases l)[s:e]` -/
+    in-range `relative_interval_to_parent_location(s, e, +)` answers a location on the same strand, again
+    non-self-overlapping, whose sequence is the reading of the positions `(bases l)[s:e]` -/
 theorem sub_extract_read (P alph : List Char) (hnt : isNt alph = true) (l : Location) (h : WF l) (loc : Loc)
     (hl : toLoc l = some loc) (hW : Within P l) (hd : loc.strand.isDirectional = true)
     (hno : nonOverlap loc.blocks = true) (hlen : 0 < loc.len) (s e : Nat) (hse : s ≤ e) (he : e ≤ loc.len) :
     ∃ m, relInterval l s e .plus = .ok m ∧ WF m ∧ Within P m ∧ locationStrand? m = some loc.strand ∧
-      m ≠ .empty ∧
+      m ≠ .empty ∧ nonOverlap (locationBlocks m) = true ∧
+      locationBases m = ((bases loc).drop s).take (e - s) ∧
       ans (extract P alph m) = readAt P alph loc.strand (((bases loc).drop s).take (e - s)) := by
   have hok := relInterval_ok l h s e .plus
-  obtain ⟨m, hm, hs, hwf, hb⟩ := relint_inv l loc hl s e _ hok hd (by omega) (by omega) (by omega) hlen hno
+  obtain ⟨m, hm, hs, hwf, hb, hnorm⟩ := relint_inv l loc hl s e _ hok hd (by omega) (by omega) (by omega) hlen hno
   have hne : loc.strand ≠ .unstranded := by
     intro hu; rw [hu] at hd; simp [Strand.isDirectional] at hd
   have hmne : m ≠ .empty := by intro he'; subst he'; simp [locationStrand?] at hs
@@ -165,9 +195,27 @@ theorem sub_extract_read (P alph : List Char) (hnt : isNt alph = true) (l : Loca
     unfold within at hwithin
     simpa using (List.all_eq_true.1 hwithin) p hp'
   have hWF : WF m := WF_of_wfLocation m hwf
-  refine ⟨m, (ans_eq_some _ _).1 hm, hWF, hW', hs, hmne, ?_⟩
-  rw [extract_eq P alph hnt m hWF hW', expectExtract_read P alph m loc.strand hs hne, hb]
-  simp
+  have hrel : relInterval l s e .plus = .ok m := (ans_eq_some _ _).1 hm
+  have hb' : locationBases m = ((bases loc).drop s).take (e - s) := by simpa using hb
+  have hv : ∀ b ∈ loc.blocks, b.1 ≤ b.2 := by
+    cases l with
+    | single b st =>
+      simp only [toLoc, Option.some.injEq] at hl; subst hl
+      intro x hx; simp at hx; subst hx; exact h
+    | compound c =>
+      simp only [toLoc, Option.some.injEq] at hl; subst hl
+      exact (blocksValid_iff _).1 h.2.1
+    | empty => simp [toLoc] at hl
+  have hnoM : nonOverlap (locationBlocks m) = true := by
+    apply nonOverlap_of_sub loc.blocks loc.strand hne hv hno m hs hwf s (e - s) hb'
+    by_cases hlt : s < e
+    · right; exact hnorm (by omega)
+    · left
+      have : e = s := by omega
+      subst this
+      exact relInterval_empty_single l _ m hrel
+  refine ⟨m, hrel, hWF, hW', hs, hmne, hnoM, hb', ?_⟩
+  rw [extract_eq P alph hnt m hWF hW', expectExtract_read P alph m loc.strand hs hne, hb']
 
 theorem expectExtract_readAt (P alph : List Char) (l : Location) (loc : Loc) (hl : toLoc l = some loc)
     (hd : loc.strand.isDirectional = true) :
@@ -182,9 +230,11 @@ theorem sub_extract (P alph : List Char) (hnt : isNt alph = true) (l : Location)
     (hno : nonOverlap loc.blocks = true) (hlen : 0 < loc.len) (s e : Nat) (hse : s ≤ e) (he : e ≤ loc.len)
     (d : List Char) (hdta : expectExtract P alph l = some d) :
     ∃ m, relInterval l s e .plus = .ok m ∧ WF m ∧ Within P m ∧ locationStrand? m = some loc.strand ∧
-      m ≠ .empty ∧ ans (extract P alph m) = some ((d.drop s).take (e - s)) := by
-  obtain ⟨m, h1, h2, h3, h4, h5, h6⟩ := sub_extract_read P alph hnt l h loc hl hW hd hno hlen s e hse he
-  refine ⟨m, h1, h2, h3, h4, h5, ?_⟩
+      m ≠ .empty ∧ nonOverlap (locationBlocks m) = true ∧
+      locationBases m = ((bases loc).drop s).take (e - s) ∧
+      ans (extract P alph m) = some ((d.drop s).take (e - s)) := by
+  obtain ⟨m, h1, h2, h3, h4, h5, h5a, h5b, h6⟩ := sub_extract_read P alph hnt l h loc hl hW hd hno hlen s e hse he
+  refine ⟨m, h1, h2, h3, h4, h5, h5a, h5b, ?_⟩
   rw [expectExtract_readAt P alph l loc hl hd] at hdta
   rw [h6]
   exact readAt_slice P alph loc.strand (bases loc) d hdta s (e - s)
